@@ -515,6 +515,9 @@ func (e *Engine) indexObligation(fr *frame, st *State, in ssa.Instruction, x, id
 	}
 	lo := st.Entails(i)
 	hi := st.Entails(n.Sub(i).AddConst(-1))
+	if e.AccessHook != nil && fr.check {
+		e.AccessHook(e, st, in, x, i.AddConst(1))
+	}
 	e.oblige(fr, "B-IDX", in, "0<=i", lo, "index must be non-negative")
 	e.oblige(fr, "B-IDX", in, "i<len", hi, fmt.Sprintf("index %s must be < length %s", e.linStr(st.Subst(i)), e.linStr(st.Subst(n))))
 }
@@ -544,6 +547,9 @@ func (e *Engine) sliceInstr(fr *frame, st *State, x *ssa.Slice) {
 		e.oblige(fr, "B-SLC", x, "0<=low", st.Entails(lo), "slice low bound must be non-negative")
 	}
 	e.oblige(fr, "B-SLC", x, "low<=high", st.Entails(hi.Sub(lo)), fmt.Sprintf("slice bounds: low %s must be <= high %s", e.linStr(st.Subst(lo)), e.linStr(st.Subst(hi))))
+	if x.High != nil && e.AccessHook != nil && fr.check {
+		e.AccessHook(e, st, x, x.X, hi)
+	}
 	if x.High != nil {
 		// against the LENGTH (not the capacity): the analysis never lets a decoder look past the slice it was given
 		e.oblige(fr, "B-SLC", x, "high<=len", st.Entails(n.Sub(hi)), fmt.Sprintf("slice high bound %s must be <= length %s", e.linStr(st.Subst(hi)), e.linStr(st.Subst(n))))
@@ -706,6 +712,14 @@ func (e *Engine) bindChecked(st *State, x ssa.Value, v Lin) bool {
 	// 64-bit types (no HasHi): the analysis assumes that arithmetic on values
 	// derived from lengths and small counters does not overflow 2^63 (stated
 	// in every evidence file); only the unsigned lower bound is checked.
+	if in, ok := x.(ssa.Instruction); ok && e.Checking() && r.HasHi {
+		w := e.Wraps[in]
+		w[0]++
+		if !fits {
+			w[1]++
+		}
+		e.Wraps[in] = w
+	}
 	if fits {
 		st.Bind(a, v)
 		return true
